@@ -38,6 +38,7 @@ CONFIGS = {
     "n2": (RUNS4, INST4, {"w1": 2, "w2": 1}),
     "t3": (RUNS6, INST6, {"w1": 3, "w2": 1}),
     "t4": (RUNS6, INST6, {"w1": 4, "w2": 2}),
+    "g3": (RUNS4, INST4, {"w1": 3, "w2": 1}),          # generations only (no contention on w1)
 }
 
 
@@ -135,6 +136,25 @@ def run(chk):
                     n_model += 1
         batches[name] = {"runs": runs, "insts": sorted(limit), "instof": instof, "limit": limit, "traces": traces}
         chk.add(impl_explored=n_impl, model_projected=n_model)
+
+    # ---- histories across object and loop lifetimes on ONE runtime (the module-level basic_runtime lives as long as the
+    #      process): instances with different limits die and are followed by new ones (the allocator hands their
+    #      addresses out again), and the same instances are used with contention from successive event loops
+    order = ["n1", "g3", "n1", "n2", "g3", "n2", "n1"] * chk.pick(2, 10)
+    gens = drv.generations([(n,) + CONFIGS[n] for n in order])
+    gens += drv.generations([("n1",) + CONFIGS["n1"]] * 3 + [("n2",) + CONFIGS["n2"]] * 3, reuse_instances=False)
+    for cfgname in ("n1", "n2", "g3"):
+        gens += drv.generations([(cfgname,) + CONFIGS[cfgname]] * 3, reuse_instances=True)
+    ngen = nreuse = 0
+    for (name, tr, reused) in gens:
+        if name not in batches:
+            runs, instof, limit = CONFIGS[name]
+            batches[name] = {"runs": runs, "insts": sorted(limit), "instof": instof, "limit": limit, "traces": []}
+        batches[name]["traces"].append(tr)
+        ngen += 1
+        nreuse += 1 if reused else 0
+    chk.add(generations_on_one_runtime=ngen, generations_with_a_reused_address=nreuse)
+    names = names + [n for n in ("g3",) if n in batches and n not in names]
 
     def judge(name):
         b = batches[name]
